@@ -8,6 +8,10 @@ import (
 	"github.com/spf13/afero"
 )
 
+// modTimeProbeName is the file modTimeResolution creates, and removes again,
+// at the root of the file system it profiles.
+const modTimeProbeName = ".modtime-resolution"
+
 var modBaseTime = time.Date(2019, 1, 1, 12, 0, 0, 0, time.UTC)
 
 type modTimeCalc func() (time.Duration, error)
@@ -21,7 +25,7 @@ func modTimeFsCalc(fs afero.Fs) modTimeCalc {
 // modTimeResolution returns a best-effort guess at the resolution of the file
 // modification time for a given afero.Fs.
 func modTimeResolution(fs afero.Fs) (dur time.Duration, rerr error) {
-	name := ".modtime-resolution"
+	name := modTimeProbeName
 	tf, err := fs.OpenFile(name, os.O_CREATE|os.O_TRUNC|os.O_WRONLY, 0666)
 	if err != nil {
 		return 0, err
